@@ -272,7 +272,7 @@ Section Proofs.
       induction blk as [|a blk IH]; intros pc i E L; cbn in L; [lia|]. destruct blk as [|a2 blk]; [cbn in L; lia|].
       destruct pc; cbn in E.
       - inversion E; subst. left. reflexivity.
-      - right. apply (IH pc i E). cbn in *. lia.
+      - right. apply (IH pc i E). cbn [List.length] in L |- *. lia.
     Qed.
     Lemma rev_head_last : forall (l : block) k x, nth_error l k = Some x -> S k = List.length l -> exists t, rev l = x :: t.
     Proof.
@@ -309,7 +309,7 @@ Section Proofs.
       destruct LX as [LX Lidx].
       unfold ISyn.enter in En. destruct (phi_vals (lead_phis (nth_block F L)) (N.of_nat b) e) as [vs|] eqn:Pv; [|discriminate].
       inversion En; subst e1 pc1. clear En.
-      pose proof (phi_vals_ext _ _ _ _ _ _ _ Hext Pv) as Pv'.
+      pose proof (phi_vals_ext _ _ _ _ _ Hext Pv) as Pv'.
       assert (Post : in_post L (List.length (lead_phis (nth_block F L))) = false).
       { unfold in_post. destruct (Nat.eqb_spec L sb) as [Es|]; [|reflexivity]. cbn. apply Nat.ltb_ge. auto. }
       assert (Goal : phi_vals (lead_phis (nth_block F' L)) (N.of_nat (pmb b pc)) e' = Some vs /\
@@ -366,7 +366,7 @@ Section Proofs.
     Qed.
     Lemma rget_inj : forall (q : rho) x x' y, nodupN (map snd q) = true -> rget q x = Some y -> rget q x' = Some y -> x = x'.
     Proof.
-      induction q as [|[a b] q IH]; intros x x' y ND E E'; cbn in *; [discriminate|].
+      induction q as [|[a b] q IH]; intros x x' y ND E E'; cbn [rget map snd nodupN] in ND, E, E'; [discriminate|].
       apply andb_prop in ND. destruct ND as [Nm ND]. apply negb_true_iff in Nm.
       destruct (N.eqb_spec a x); destruct (N.eqb_spec a x').
       - congruence.
@@ -387,7 +387,7 @@ Section Proofs.
 
     Definition olab_ok (o : operand) : Prop := match o with OLab l => (FB <= l)%N | _ => True end.
     Lemma ren_op_nolab : forall o, olab_ok o -> match o with OLab l => ren_op r base nGN o = OLab l | _ => True end.
-    Proof. intros [z|x|l] H; cbn in *; auto. replace (N.ltb l nGN) with false; [reflexivity|]. symmetry. apply N.ltb_ge. unfold nGN. lia. Qed.
+    Proof. intros [z|x|l] H; cbn [olab_ok ren_op] in *; auto. replace (N.ltb l nGN) with false; [reflexivity|]. symmetry. apply N.ltb_ge. unfold nGN. lia. Qed.
 
     Lemma oval_ren : forall eg ec e2 o v, Rel eg ec e2 -> olab_ok o -> oval eg o = Some v -> oval e2 (ren_op r base nGN o) = Some v.
     Proof.
